@@ -3,7 +3,7 @@
 set -u
 export GOFLAGS=-mod=mod GOPROXY=off GOSUMDB=off
 ID=$1; shift
-WT=/tmp/seed/$ID; OUT=/tmp/seed/out/$ID
+ROOT=${SEED_ROOT:-/tmp/seed}; WT=$ROOT/$ID; OUT=$ROOT/out/$ID
 echo "== patch"; git -C $WT diff --stat | tail -3
 cmp <(git -C $WT diff) $OUT/patch.diff >/dev/null && echo "worktree diff == patch.diff" || echo "NOTE: worktree diff differs from patch.diff"
 git -C /repo apply --check $OUT/patch.diff && echo "applies to /repo HEAD"
